@@ -58,6 +58,9 @@ type Scenario struct {
 	// MempoolTTL (DA blocks a submission is given to be included; 0 = 2): after a "not included" / "already
 	// in mempool" answer the submission loop pauses for DA block time x MempoolTTL (25 is the default config).
 	MempoolTTL int `json:"mempool_ttl,omitempty"`
+	// QueueWriteFaultMs > 0: at this moment one durable write of the sequencing layer's batch queue fails
+	// with a transient I/O error (full disk for an instant).
+	QueueWriteFaultMs int `json:"queue_write_fault_ms,omitempty"`
 }
 
 func gen(t *rapid.T) Scenario {
@@ -101,6 +104,9 @@ func gen(t *rapid.T) Scenario {
 		} else {
 			sc.DataScript = append([]world.SubmitResp{r}, sc.DataScript...)
 		}
+	}
+	if rapid.IntRange(0, 5).Draw(t, "queuefault") == 0 {
+		sc.QueueWriteFaultMs = 1 + rapid.IntRange(0, 20).Draw(t, "queuefaultat")*sc.BlockMs
 	}
 	if rapid.IntRange(0, 9).Draw(t, "hang") == 0 {
 		sc.HeaderScript = append(sc.HeaderScript, world.SubmitResp{Kind: "hang"})
@@ -228,6 +234,17 @@ func run(sc Scenario, dir string) world.Verdict {
 		if sc.Mode != "aggregator" && sc.FullStartMs == 0 {
 			startFull()
 			fullStarted = true
+		}
+		if sc.QueueWriteFaultMs > 0 {
+			wg.Add(1)
+			go func() {
+				defer wg.Done()
+				select {
+				case <-ctx.Done():
+				case <-time.After(time.Duration(sc.QueueWriteFaultMs) * time.Millisecond):
+					p.Raw.SetErrOnPrefix("/batches/")
+				}
+			}()
 		}
 		// transaction arrivals
 		for _, a := range sc.Arrivals {
